@@ -90,9 +90,17 @@ class World:
         self.recv = {}  # side -> list of recv events
         self.app = []  # application-level events
         self.last_recv_sid = {}
-        self.sid_map = {}  # (requester side, sid) -> uid
+        self.sid_map = {}  # (requester side, sid) -> uid issued last with that id
+        self.sid_queue = {}  # (requester side, sid) -> uids in issue order, consumed by the responder's handler calls
+        self.frozen = False  # set when the trace is taken: later events (cleanup) are not part of the run
+
+    def bind(self, side, sid, uid):
+        self.sid_map[(side, sid)] = uid
+        self.sid_queue.setdefault((side, sid), collections.deque()).append(uid)
 
     def ev(self, side, kind, **kw):
+        if self.frozen:
+            return {'seq': self.seq + 1, 't': self.loop.time(), 'side': side, 'ev': kind, 'after_trace': True}
         self.seq += 1
         e = {'seq': self.seq, 't': self.loop.time(), 'side': side, 'ev': kind}
         e.update(kw)
